@@ -52,6 +52,13 @@ pub fn dress(scn: &mut Scenario, rng: &mut Rng, consistent_chain: bool) {
             }
         }
     }
+    if rng.chance(1, 8) {
+        // the four bytes in front of a block's size prefix are not part of what the index names
+        let m = rng.range(1, 3) as u8;
+        for l in scn.layouts.iter_mut() {
+            l.magic_mode = m;
+        }
+    }
     if scn.chain.len() >= 2 && scn.chain.len() <= 60 && scn.extras.is_empty() && rng.chance(1, 4) {
         c04::add_ignored_competitors(scn, rng);
     }
